@@ -20,7 +20,8 @@ import (
 // idForm says how the claim string of a hello is derived from the connect id
 // of the request it is aimed at (resolved once the id is known).
 type greet struct {
-	Kind string `json:"k"`             // hello | garbage | trunc | close | stall | bighdr | hdronly
+	Kind string `json:"k"`             // hello | dev | garbage | trunc | close | stall | bighdr | hdronly
+	Dev  string `json:"dev,omitempty"` // dev: wire-level deviation of an otherwise right hello (see devBytes)
 	Cmd  int    `json:"cmd,omitempty"` // hello: command integer
 	Form string `json:"form,omitempty"`
 	// hello: right wrong empty absent prev prefix ext upper space int otherattr lit
@@ -37,13 +38,16 @@ func (g greet) String() string {
 	if g.Kind == "hello" {
 		return fmt.Sprintf("hello/%d/%s%d", g.Cmd, g.Form, g.Arg)
 	}
+	if g.Kind == "dev" {
+		return "dev/" + g.Dev + "/" + g.Form
+	}
 	return g.Kind
 }
 
 // resolve fixes the concrete claim string given the request's id and the id of
 // an earlier request.
 func (g greet) resolve(right, prev string) greet {
-	if g.Kind != "hello" {
+	if g.Kind != "hello" && g.Kind != "dev" {
 		return g
 	}
 	g.HasClaim = true
@@ -173,6 +177,113 @@ func helloBytes(g greet, right string) []byte {
 	return append([]byte(nil), mc.Written...)
 }
 
+// devBytes: an otherwise right hello (command 69, ClaimId = g.Claim) that deviates
+// from the wire format of WriteReverseConnect:
+//
+//	twomsg   the command integer in one message (EOM), the ad in the next
+//	cmd32    the command as a 4-byte integer, then the ad
+//	cmd16    the command as a 2-byte integer, then the ad
+//	cmdstr   the command as the string "69", then the ad
+//	cmdle    the command as an 8-byte LITTLE-endian integer, then the ad
+//	cmdtwice the command integer twice, then the ad
+//	adfirst  the ad, then the command integer
+//	trail    the right hello with further values (an int, a string) in the same message
+//	trailmsg the right hello followed at once by a second, unrelated message
+func devBytes(g greet) []byte {
+	mc := newMemConn(-1, nil, false)
+	s := stream.NewStream(mc)
+	ctx := context.Background()
+	msg := message.NewMessageForStream(s)
+	ad := classad.New()
+	switch g.Form {
+	case "absent":
+		must(ad.Set("RequestID", "7"))
+	default:
+		must(ad.Set(ccb.AttrClaimID, g.Claim))
+		must(ad.Set("RequestID", "1"))
+	}
+	putAd := func() {
+		must(msg.PutClassAdWithOptions(ctx, ad, &message.PutClassAdConfig{Options: message.PutClassAdIncludePrivate}))
+	}
+	rc := ccb.CommandReverseConnect
+	switch g.Dev {
+	case "twomsg":
+		must(msg.PutInt(ctx, rc))
+		must(msg.FinishMessage(ctx))
+		msg = message.NewMessageForStream(s)
+		putAd()
+	case "cmd32":
+		must(msg.PutBytes(ctx, []byte{0, 0, 0, byte(rc)}))
+		putAd()
+	case "cmd16":
+		must(msg.PutBytes(ctx, []byte{0, byte(rc)}))
+		putAd()
+	case "cmdstr":
+		must(msg.PutString(ctx, fmt.Sprint(rc)))
+		putAd()
+	case "cmdle":
+		must(msg.PutBytes(ctx, []byte{byte(rc), 0, 0, 0, 0, 0, 0, 0}))
+		putAd()
+	case "cmdtwice":
+		must(msg.PutInt(ctx, rc))
+		must(msg.PutInt(ctx, rc))
+		putAd()
+	case "adfirst":
+		putAd()
+		must(msg.PutInt(ctx, rc))
+	case "trail":
+		must(msg.PutInt(ctx, rc))
+		putAd()
+		must(msg.PutInt(ctx, 12345))
+		must(msg.PutString(ctx, "trailing"))
+	case "trailmsg":
+		must(msg.PutInt(ctx, rc))
+		putAd()
+		must(msg.FinishMessage(ctx))
+		msg = message.NewMessageForStream(s)
+		must(msg.PutInt(ctx, 60000))
+	default:
+		panic("unknown deviation " + g.Dev)
+	}
+	must(msg.FinishMessage(ctx))
+	return append([]byte(nil), mc.Written...)
+}
+
+// wideCommands: 64-bit command integers that are 69 only after some truncation
+// or sign confusion (low 32 / 16 / 8 bits, high half, negated), none of them 69.
+func wideCommands() []int {
+	rc := int64(ccb.CommandReverseConnect)
+	u := func(x uint64) int { return int(int64(x)) }
+	return []int{
+		int(rc + 1<<32), int(rc - 1<<32), int(rc + 1<<40), u(uint64(rc) + 1<<63), int(-rc),
+		u(0x0000004500000045), u(0x7fffffff00000045), u(0x0100000000000045), u(0xffffffff00000045 - 1<<32),
+		u(0x8000000000000045), int(rc << 32), int(1<<32 - 1), int(rc + 1<<16), int(rc + 1<<31), int(rc + 1<<33),
+		u(0x4500000000000000), int(^rc), int(rc + 2<<32),
+	}
+}
+
+// wireCatalogue: greetings that are wrong only at the wire level (added after seeded
+// mutant C20-15): the wide command integers with the right / a wrong / no id, and the
+// deviations of devBytes that the reader must refuse.
+func wireCatalogue(c *core.Ctx) []greet {
+	var out []greet
+	for _, cmd := range wideCommands() {
+		for _, f := range []string{"right", "wrong", "absent"} {
+			g := greet{Kind: "hello", Cmd: cmd, Form: f}
+			if f == "wrong" {
+				g.Lit = chosenID
+			}
+			out = append(out, g)
+		}
+	}
+	for _, d := range []string{"twomsg", "cmd32", "cmd16", "cmdstr", "cmdle", "cmdtwice", "adfirst"} {
+		for _, f := range []string{"right", "absent"} {
+			out = append(out, greet{Kind: "dev", Dev: d, Form: f})
+		}
+	}
+	return out
+}
+
 func must(err error) {
 	if err != nil {
 		panic(err)
@@ -185,6 +296,8 @@ func (g greet) wire(right string) (data []byte, closeAfter bool, stall bool) {
 	switch g.Kind {
 	case "hello":
 		return helloBytes(g, right), false, false
+	case "dev":
+		return devBytes(g), false, false
 	case "garbage":
 		return g.Raw, false, false
 	case "bighdr": // frame header announcing more than MaxMessageSize
@@ -220,6 +333,15 @@ func (g greet) term() string {
 			claim = "(Some " + bytesTerm(g.Claim) + ")"
 		}
 		return fmt.Sprintf("(GHello %s %s)", core.Z(int64(g.Cmd)), claim)
+	case "dev":
+		if g.Dev == "trail" || g.Dev == "trailmsg" { // the reader never looks past TargetType: still this hello
+			claim := "None"
+			if g.HasClaim {
+				claim = "(Some " + bytesTerm(g.Claim) + ")"
+			}
+			return fmt.Sprintf("(GHello %s %s)", core.Z(int64(ccb.CommandReverseConnect)), claim)
+		}
+		return "GMalformed"
 	case "garbage", "bighdr":
 		return "GMalformed"
 	case "trunc", "close":
@@ -296,6 +418,8 @@ func rogueCatalogue(c *core.Ctx) []greet {
 			cat = append(cat, g)
 		}
 	}
+	// wire-level rogues last (positions above stay put)
+	cat = append(cat, wireCatalogue(c)...)
 	return cat
 }
 
